@@ -348,6 +348,21 @@ def gen_case_join(rng, tier=None):
         k = 'and' if (top and rng.random() < 0.7) or (not top and rng.random() < 0.3) else 'or'
         return [k, tree(d - 1, False), tree(d - 1, False), rng.choice(['fn', 'op'])]
     cond = tree(rng.choice([2, 2, 3]), True)
+    if rng.random() < 0.5:
+        # (x~y or x~z) and (x~x or z~z): for one x the left side yields rows that leave z open and rows that bind it, the right
+        # side is cached under partially bound keys
+        x, y, z = rng.sample(keys, 3)
+
+        def lf(u, v, op='=='):
+            fu, fv = rng.choice('ab'), rng.choice('ab')
+            if u == v and fu == fv:
+                fv = 'b' if fu == 'a' else 'a'
+            return ['cmp', op, ['map', ['f', F[fu]], ['var', u]], ['map', ['f', F[fv]], ['var', v]]]
+        left = ['or', lf(x, y), lf(x, z), rng.choice(['fn', 'op'])]
+        right = ['or', lf(x, x), lf(z, z, rng.choice(['==', '!='])), rng.choice(['fn', 'op'])]
+        if rng.random() < 0.3:
+            left, right = right, left
+        cond = ['and', left, right, 'fn']
     used = cond_keys(cond, set())
     sel = [['var', k] for k in keys if k in used]
     rng.shuffle(sel)
